@@ -710,7 +710,7 @@ def _run_config(idx, tier, seed, ctx):
     if cfg['family'] in E.FAMILIES:
         # resume through the algorithm-level API: its own driver (no Simulation class, no save protocol to sweep)
         rng = random.Random(core.sub_seed(seed, 'faults'))
-        return _pack(stats, E.run_config(cfg, ctx, stats, W, rng), idx)
+        return _pack(stats, E.run_config(cfg, dict(ctx, _idx=idx), stats, W, rng), idx)
     world, out, pre = reference_run(cfg)
     if world is None or out['outcome'] != 'finished':
         # A fault-free run that raises is not a C18 matter (nothing crashed, nothing was resumed): the
@@ -879,6 +879,10 @@ def digests_only(seed, tier, idxs, family=None):
     out = []
     for idx in idxs:
         cfg = W.gen_config(core.derive_seed(seed, PROP, idx), tier, family=family, index=idx)
+        if cfg['family'] in E.FAMILIES:
+            world, o = E.reference(cfg, W)
+            out.append([idx] + list(E.run_digests(world, o)))
+            continue
         world, o, _ = reference_run(cfg)
         out.append([idx] + list(run_digests(world)))
     print(json.dumps(out))
@@ -950,6 +954,8 @@ def main(argv=None):
     xproc = {'checked': 0, 'checked_other_hashseed': 0, 'mismatch': []}
     if not harness_errors and digests:
         sample = sorted(digests)[:16 if tier == 'quick' else 48]
+        # ... plus algorithm-level configurations (their slots come late in the stratification)
+        sample += [d for d in sorted(digests) if d not in sample and len(d) > 1 and d[1] == d[2]][:2 if tier == 'quick' else 6]
         try:
             ref = {i: (d, ds) for i, d, ds in sample}
             idxs = [i for i, _, _ in sample]
